@@ -530,7 +530,7 @@ pub fn w2_build_ops(shape: &Shape, forward: bool, variant: Variant) -> Vec<Op> {
 }
 
 /// All operations with all ordered argument pairs on one built shape.
-pub fn run_w2_item<P: Payload>(ctx: &Ctx, shape: &Shape, forward: bool, variant: Variant, cov: &mut Cov, hook_each: &mut dyn FnMut(&Ctx, &mut State<P>, &mut Rng, &mut Cov) -> Vec<Finding>) -> Option<Violation> {
+pub fn run_w2_item<P: Payload>(ctx: &Ctx, shape: &Shape, forward: bool, variant: Variant, depth2: bool, cov: &mut Cov, hook_each: &mut dyn FnMut(&Ctx, &mut State<P>, &mut Rng, &mut Cov) -> Vec<Finding>) -> Option<Violation> {
     let workload = format!("w2-{}-{}-{:?}", render_shape(shape), if forward { "fwd" } else { "bwd" }, variant);
     let mut rng = Rng::derive(ctx.seed, 3, shape.len() as u64);
     let build = w2_build_ops(shape, forward, variant);
@@ -592,6 +592,7 @@ pub fn run_w2_item<P: Payload>(ctx: &Ctx, shape: &Shape, forward: bool, variant:
         trial.push(Op::AppendValue(t));
     }
     trial.push(Op::New);
+    let trial2 = if depth2 { trial.clone() } else { Vec::new() };
     for op in trial {
         let mut s2 = st.clone();
         ctx.beacon.tick.fetch_add(1, Ordering::Relaxed);
@@ -606,9 +607,54 @@ pub fn run_w2_item<P: Payload>(ctx: &Ctx, shape: &Shape, forward: bool, variant:
         fs.extend(monitors(ctx, &mut s2, &info, true, &mut rng, cov, false));
         let mut all = ops.clone();
         all.push(op.clone());
-        let (v, _) = judge(ctx, &fs, cov, &workload, all.len() - 1, &all);
+        let (v, stop) = judge(ctx, &fs, cov, &workload, all.len() - 1, &all);
         if v.is_some() {
             return v;
+        }
+        // depth 2: every operation with every ordered pair again, on the state the first one left
+        if depth2 && !stop && !info.diverged && (info.changed || info.new_h.is_some()) {
+            let mut second = trial2.clone();
+            if let Some(nh) = info.new_h {
+                // the node the first operation created takes part as well
+                for &y in &handles {
+                    for kind in INS_KINDS {
+                        second.push(Op::Ins { kind, checked: true, t: nh, x: y });
+                        second.push(Op::Ins { kind, checked: false, t: y, x: nh });
+                    }
+                }
+                second.push(Op::Remove(nh));
+                second.push(Op::AppendValue(nh));
+            }
+            for op2 in second {
+                // arguments must still be in the call domain after the first operation
+                let ok = match &op2 {
+                    Op::Detach(x) | Op::Remove(x) | Op::RemoveSubtree(x) => s2.model.is_live(*x),
+                    Op::Ins { t, x, .. } => [*t, *x].iter().all(|h| s2.model.is_live(*h) || s2.model.is_removed_unrecycled(*h)),
+                    Op::AppendValue(x) => s2.model.is_live(*x) || s2.model.is_removed_unrecycled(*x),
+                    _ => true,
+                };
+                if !ok {
+                    continue;
+                }
+                let mut s3 = s2.clone();
+                ctx.beacon.tick.fetch_add(1, Ordering::Relaxed);
+                {
+                    let mut c = ctx.beacon.current.lock().unwrap();
+                    c.1.truncate(build.len() + 1);
+                    c.1.push(op2.clone());
+                }
+                let info2 = s3.step(&op2);
+                account_step(ctx, &s3, &info2, cov);
+                let mut fs = info2.findings.clone();
+                fs.extend(monitors(ctx, &mut s3, &info2, true, &mut rng, cov, false));
+                let mut all2 = all.clone();
+                all2.push(op2.clone());
+                let (v, _) = judge(ctx, &fs, cov, &workload, all2.len() - 1, &all2);
+                if v.is_some() {
+                    return v;
+                }
+                cov.bump("w2_depth2_operation_pairs");
+            }
         }
     }
     cov.bump("w2_shapes_swept");
